@@ -289,6 +289,7 @@ func (b *Builder) ParseFrameV1(data, pooledSlice []byte, dataOffset int) (*Frame
 	f.data = data
 	f.pooledSlice = pooledSlice
 	f.psDataOffset = dataOffset
+	f.recvLink = nil
 
 	// Check all length attributes and save the ranges.
 
